@@ -9,6 +9,15 @@ from .analysis import Analysis
 from .build import build_program, eval_validator, mask
 
 
+def case_values(v, width=2):
+    """values matched by one m.Case: an int, a list of ints, or a bit pattern with don't-care positions"""
+    if isinstance(v, list):
+        return {int(x) for x in v}
+    if isinstance(v, str):
+        return {x for x in range(1 << width) if all(c in "-" + str((x >> (width - 1 - i)) & 1) for i, c in enumerate(v))}
+    return {int(v)}
+
+
 def _pos_excl(s1, s2):
     from .analysis import pos_exclusive
 
@@ -462,11 +471,13 @@ class CoreScenario(Scenario):
                     return False
             elif u[0] == "sw":
                 test = self.cval(n["test"], stim, obs)
-                vals = [v for v, _ in n["cases"]]
+                vals = [case_values(v) for v, _ in n["cases"]]
                 if alt < len(vals):
-                    if test != vals[alt]:
+                    if test not in vals[alt] or any(test in vs for vs in vals[:alt]):
                         return False
-                elif test in vals:
+                    if len(vals[alt]) > 1:
+                        self.hit("case_with_several_patterns_selected")
+                elif any(test in vs for vs in vals):
                     return False
             elif u[0] == "fsm":
                 if self.fsm_state[n["fid"]] != alt:
